@@ -29,8 +29,27 @@ func (c *notCond) check() error {
 func (c *notCond) string() string {
 	next := c.notC.string()
 	if strings.HasPrefix(next, "(") {
-		return fmt.Sprintf("not %s", c.notC.string())
+		return fmt.Sprintf("not %s", next)
 	}
-	splitted := strings.Split(next, " ")
-	return strings.Join(append([]string{splitted[0], "not"}, splitted[1:]...), " ")
+	if _, isNot := c.notC.(*notCond); isNot {
+		// keep double negations apart
+		return fmt.Sprintf("not (%s)", next)
+	}
+
+	// Insert the "not" behind the key, which may be quoted and contain spaces.
+	keyEnd := strings.Index(next, " ")
+	if strings.HasPrefix(next, "\"") {
+		for i := 1; i < len(next); i++ {
+			if next[i] == '\\' {
+				i++ // skip escaped character
+			} else if next[i] == '"' {
+				keyEnd = i + 1
+				break
+			}
+		}
+	}
+	if keyEnd < 0 {
+		return fmt.Sprintf("not %s", next)
+	}
+	return next[:keyEnd] + " not" + next[keyEnd:]
 }
